@@ -4,7 +4,7 @@
     [pre k s] are the first [k] items of [s] obtained without looking at anything after them.  The consumption of the
     shared input stream is observed on the implementation (checks/c03.py), not modelled. *)
 From Coq Require Import List ZArith Bool.
-From JaqV Require Import Base.Stream Val.Num Val.Val Val.Err Val.Arith Core.Syntax Core.Natives Core.Run Proofs.StreamLaws Proofs.LazyLaws.
+From JaqV Require Import Base.Stream Val.Num Val.Val Val.Err Val.Arith Core.Syntax Core.Natives Core.Run Proofs.StreamLaws Proofs.LazyLaws Proofs.FoldLazy Core.Compile.
 Import ListNotations.
 Local Open Scope Z_scope.
 
@@ -70,3 +70,28 @@ Theorem alt_lazy : forall d nr defs n l r c v x t,
   run d nr defs n l c v = SCons x t -> as_bool x = true -> first_s (run d nr defs (S n) (KAlt l r) c v) = sone x.
 Proof. exact LazyLaws.run_alt_lazy. Qed.
 Print Assumptions alt_lazy.
+
+(** reduce and foreach ask their source for the next item only after the update has yielded a state for the current one
+    (Proofs/FoldLazy.v): when the update on an item yields nothing, or fails, breaks or halts, the fold ends there whatever
+    the rest [k] of the source would do (read inputs, fail, never end); foreach delivers its output for the current item
+    before the source is asked again *)
+Theorem fold_ignores_the_rest_after_an_empty_update : forall d nr defs fuel xs init upd ft c v i y (k : unit -> str val),
+  run d nr defs (S fuel) init c v = sone i -> run d nr defs fuel xs c v = SCons y k ->
+  run d nr defs (S fuel) upd (cons_var y c) i = SNil ->
+  run d nr defs (S (S fuel)) (KFold xs PatVar init upd ft) c v = SNil.
+Proof. exact FoldLazy.fold_ignores_rest_after_empty. Qed.
+Print Assumptions fold_ignores_the_rest_after_an_empty_update.
+
+Theorem fold_ignores_the_rest_after_an_exception : forall d nr defs fuel xs init upd ft c v i y (k : unit -> str val) e,
+  run d nr defs (S fuel) init c v = sone i -> run d nr defs fuel xs c v = SCons y k ->
+  run d nr defs (S fuel) upd (cons_var y c) i = SExn e ->
+  run d nr defs (S (S fuel)) (KFold xs PatVar init upd ft) c v = SExn e.
+Proof. exact FoldLazy.fold_ignores_rest_after_exception. Qed.
+Print Assumptions fold_ignores_the_rest_after_an_exception.
+
+Theorem foreach_delivers_before_the_source_is_asked_again : forall d nr defs fuel xs init upd c v i y (k : unit -> str val) z t,
+  run d nr defs (S fuel) init c v = sone i -> run d nr defs fuel xs c v = SCons y k ->
+  run d nr defs (S fuel) upd (cons_var y c) i = SCons z t ->
+  exists tl, run d nr defs (S (S fuel)) (KFold xs PatVar init upd (Foreach None)) c v = SCons z tl.
+Proof. exact FoldLazy.foreach_first_output. Qed.
+Print Assumptions foreach_delivers_before_the_source_is_asked_again.
